@@ -1,7 +1,7 @@
 # C19 — blocks have value semantics: a copy is complete and independent of its source.
 import common, schema, histgen, random
 THEOREMS = ["C19_find_refines", "C19_own_refs", "C19_value_copy", "C19_destroy_other", "C19_copy_independent", "C19_any_history", "C19_histories_from_nothing", "C19_history_nonvacuous", "C19_shallow_copy_refuted", "C19_nonvacuous"]
-EXTRA_PROPERTY_FILES = ("Properties_hash",)   # obligations over the regenerated Gen_hash.v (translator/hashes.py)
+EXTRA_PROPERTY_FILES = ("Properties_hash", "Properties_tables")   # obligations over the regenerated Gen_hash.v (translator/hashes.py)
 
 def dup_tables(data, rng):
     """the same file with one entry of the ip / classtype / name_rdata table of every block repeated at the end of the table (legal
